@@ -33,7 +33,10 @@ def bases(tier):
     if tier != "quick":
         for c in itertools.product(KINDS5, repeat=4):
             out.append(c)
-    else:
+    out.append(("DENSE", U(3), I(13), U(8), I(5)))
+    out.append(("DENSE", U(8), I(5), F32))
+    out.append(("DENSE", U(1), I(7), U(12), enum_with_max(5), U(4)))
+    if tier == "quick":
         # four and five fields (every permutation of them): orders in which the first and the last field stay in place
         out.append((U(3), I(13), U(8), I(5)))
         out.append((U(8), U(8), U(8), U(8)))
@@ -67,6 +70,7 @@ def make_worker(tier):
 
     def work(chunk):
         S = Stats()
+        frame_ids = itertools.count(1)  # unique inside one generated schema (a chunk holds < 2048 bindings)
         h = Hoister(prefix="T")  # generated C upper-cases enumerator names: keep them apart from type names
         decls = []
         groups = []  # (base index, combo, [(twin name, perm)], can?)
@@ -88,19 +92,24 @@ def make_worker(tier):
                     can = can and (shapes.fixed_width(st) or 99) <= 64
                     decls.append(struct_decl(name, st, h))
                     if can:
-                        decls.append(("impl", "can", name, None, (("id", (idx * 24 + pi) % 2048), ("device", "d%d" % idx)), ()))
+                        decls.append(("impl", "can", name, None, (("id", next(frame_ids) % 2048), ("device", "d%d" % idx)), ()))
                     twins.append((name, perm, st))
                 groups.append((idx, combo, twins, can))
                 continue
+            ids = IDS
+            if combo and combo[0] == "DENSE":
+                # the ids 0..n-1 a hand-written schema usually has (the sparse ones above show a sort on something else)
+                combo = tuple(combo[1:])
+                ids = tuple(range(len(combo)))
             n = len(combo)
-            fields = [("f%d" % i, IDS[i], combo[i]) for i in range(n)]
+            fields = [("f%d" % i, ids[i], combo[i]) for i in range(n)]
             can = all(is_fixed(t) for t in combo) and sum(shapes.fixed_width(t) for t in combo) <= 64
             for pi, perm in enumerate(itertools.permutations(range(n))):
                 name = "S%dp%d" % (idx, pi)
                 st = ("st", tuple(fields[i] for i in perm))
                 decls.append(struct_decl(name, st, h))
                 if can:
-                    decls.append(("impl", "can", name, None, (("id", (idx * 24 + pi) % 2048), ("device", "d%d" % idx)), ()))
+                    decls.append(("impl", "can", name, None, (("id", next(frame_ids) % 2048), ("device", "d%d" % idx)), ()))
                 twins.append((name, perm, st))
             groups.append((idx, combo, twins, can))
         decls = h.decls + decls
